@@ -365,7 +365,7 @@ func c15(run *ev.Run, variant string) {
 	s := newScen(0.1)
 	r := s.roots()
 	run.Rule = "BFS over sequences of read markers with counters 1,2,3 (and 5000) for 2 clients x 2 blobbers x 2 allocations, replayed and reordered, foreign-signed, carrying the client's id with a foreign key, forged with the REUSED signature of the previously redeemed marker (same blobber with and without a new timestamp, and the marker redeemed at another blobber) and a higher counter, for a blobber outside the allocation, interleaved with read-pool lock/unlock; reference = last redeemed counter per (blobber, client, allocation): debit == floor(read price * newly read blocks / 16384), replay/older charges nothing, stored counters never decrease, forged markers are rejected"
-	s.explore(run, s.readAlphabet(run.Thorough()), pick(run, r, "AB"), 3, 4, s.readMonitor)
+	s.explore(run, s.readAlphabet(run.Thorough()), pick(run, r, "AB"), 4, 4, s.readMonitor)
 }
 
 func c24(run *ev.Run, variant string) {
